@@ -2,7 +2,7 @@
 import random
 import gen
 from common import proof_step, load_corpus
-from histcheck import run_cases, shrink_case, step_summary
+from histcheck import run_cases, shrink_case, step_summary, alias_search, alias_verdict
 
 
 def evaluate(rep, cases, nontrivial, what, shrink_budget=100, compare_class=False, oracle=None, batch_aux=None):
@@ -21,6 +21,8 @@ def evaluate(rep, cases, nontrivial, what, shrink_budget=100, compare_class=Fals
             d = oracle(case, go, mo)
         if d:
             bad.append((case, go, mo, d))
+    for c, g, m, d in alias_search(rep, results, compare_class):
+        bad.append((dict(c, noshrink=True), g, m, d))
     for case, go, mo, d in bad[:4]:
         rep.disagreements_checked += 1
         if "rebuild" in case:
@@ -74,6 +76,7 @@ def standard_run(rep, pid, gen_case, nontrivial, what, n_quick, n_thorough, rule
         nbad += evaluate(rep, cs, nontrivial, what, compare_class=compare_class, oracle=oracle, batch_aux=batch_aux)
         if done >= n:
             break
+    alias_verdict(rep)
     if rep.broken and not rep.violations:
         extra = [gen_case(rng) for _ in range(5000)]
         if evaluate(rep, extra, nontrivial, what, compare_class=compare_class, oracle=oracle, batch_aux=batch_aux) == 0:
